@@ -60,6 +60,23 @@ impl MioListener {
     }
 }
 
+impl MioListener {
+    /// Remove the socket file of a path-bound Unix domain listener.
+    ///
+    /// Called when the accept loop stops; deregistering (pause, back-off after an accept error)
+    /// must leave the path in place or clients could not connect anymore.
+    pub(crate) fn cleanup(&self) {
+        #[cfg(unix)]
+        if let MioListener::Uds(ref lst) = *self {
+            if let Ok(addr) = lst.local_addr() {
+                if let Some(path) = addr.as_pathname() {
+                    let _ = std::fs::remove_file(path);
+                }
+            }
+        }
+    }
+}
+
 impl Source for MioListener {
     fn register(
         &mut self,
@@ -91,17 +108,7 @@ impl Source for MioListener {
         match *self {
             MioListener::Tcp(ref mut lst) => lst.deregister(registry),
             #[cfg(unix)]
-            MioListener::Uds(ref mut lst) => {
-                let res = lst.deregister(registry);
-
-                // cleanup file path
-                if let Ok(addr) = lst.local_addr() {
-                    if let Some(path) = addr.as_pathname() {
-                        let _ = std::fs::remove_file(path);
-                    }
-                }
-                res
-            }
+            MioListener::Uds(ref mut lst) => lst.deregister(registry),
         }
     }
 }
